@@ -67,6 +67,53 @@ def verifyCore {G1 G2 GT : Type} (pair : G1 → G2 → GT) (eq : GT → GT → B
     (g2 pk : G2) (hm sig : G1) : Bool :=
   eq (pair sig g2) (pair hm pk)
 
+/-! ### `groupNodeInfo` — collecting share pieces (`group_create/group_node_info.go`) -/
+
+/-- A share piece as `handleSharePiece` sees it: sender id, secret share, the dealer's public key. -/
+structure Piece (P : Type) where
+  id : Nat
+  share : Nat
+  pub : P
+
+/-- State of a member's `groupNodeInfo`: group size, `receivedSharePiece` (entries in insertion
+    order; a Go map keyed by the sender's id), `minerSignSeckey` (`0` = not valid), `groupPubKey`
+    (`none` = empty). -/
+structure NodeInfo (P : Type) where
+  n : Nat
+  received : List (Piece P)
+  msk : Nat
+  gpk : Option P
+
+def NodeInfo.new {P : Type} (n : Nat) : NodeInfo P := ⟨n, [], 0, none⟩
+
+/-- `handleSharePiece(id, share)` → `(state, status)`: `-1` for a sender already present (the first
+    piece is kept, whatever the new one contains); otherwise the piece is stored — no membership test
+    here nor in the caller — and when the number of DISTINCT senders equals the group size
+    (`gotAllSharePiece`: `len(receivedSharePiece) == groupMemberNum`) the keys are aggregated
+    (`aggregateKeys`: only if not both valid yet) and `1` is returned if both are valid, else `-1`;
+    `0` in every other case (also for senders beyond the `n`-th, after completion). -/
+def handleSharePiece {P : Type} (r : Nat) (addP : P → P → P) (st : NodeInfo P) (pc : Piece P) :
+    NodeInfo P × Int :=
+  if st.received.any (fun e => e.id == pc.id) then (st, -1)
+  else
+    let rc := st.received ++ [pc]
+    if rc.length = st.n then
+      let st' : NodeInfo P :=
+        if st.gpk.isNone ∨ st.msk = 0 then
+          ⟨st.n, rc, (aggregateSeckeys r (rc.map (·.share))).getD 0, aggregatePoints addP (rc.map (·.pub))⟩
+        else ⟨st.n, rc, st.msk, st.gpk⟩
+      (st', if st'.gpk.isSome ∧ st'.msk ≠ 0 then 1 else -1)
+    else (⟨st.n, rc, st.msk, st.gpk⟩, 0)
+
+/-- A delivery history. -/
+def deliverAll {P : Type} (r : Nat) (addP : P → P → P) :
+    NodeInfo P → List (Piece P) → NodeInfo P × List Int
+  | st, [] => (st, [])
+  | st, pc :: rest =>
+    let (st', c) := handleSharePiece r addP st pc
+    let (st'', cs) := deliverAll r addP st' rest
+    (st'', c :: cs)
+
 /-! ### Lagrange coefficients -/
 
 /-- The inner `j` loop of `recoverSignature` for fixed `i`: running `(num, den)`. `j` is the
